@@ -46,8 +46,13 @@ ApplyEdit(m, s) ==
     \* dictionary is empty (the direction stays)
     [] s.op = "setobjdict" -> [m EXCEPT !.c = [k \in 1..Len(m.c) |-> IF k = s.r THEN s.k ELSE IF k = s.r2 THEN s.k2 ELSE 0]]
     [] s.op = "setdir" -> [m EXCEPT !.dir = s.dir]
+    \* model.add_reactions([reverse copy of reaction r]): the stoichiometry of r negated, bounds (0, ub), no objective
+    \* term -- a structural edit (it closes a two-reaction cycle with r when r is internal)
+    [] s.op = "addrxn" -> [m EXCEPT !.rxns = Append(@, "R" \o ToString(Len(m.rxns) + 1)),
+                                    !.S = Append(@, [j \in 1..Len(m.mets) |-> 0 - m.S[s.r][j]]),
+                                    !.lb = Append(@, 0), !.ub = Append(@, s.ub), !.c = Append(@, 0)]
     [] OTHER -> m
-IsEdit(s) == s.op \in {"setbounds", "setobj", "setdir", "setobjdict"}
+IsEdit(s) == s.op \in {"setbounds", "setobj", "setdir", "setobjdict", "addrxn"}
 LoggedModel(m, lg) == [m EXCEPT !.lb = lg.lb, !.ub = lg.ub, !.c = lg.c, !.dir = lg.dir]
 
 If(b, x) == IF b THEN {x} ELSE {}
@@ -477,7 +482,7 @@ Next ==
      /\ Undecided(ev, A) => PrintT(ToJson([verdict |-> "UNDECIDED", tid |-> Traces[tid].tid, l |-> l + 1, op |-> ev.step.op,
                                            why |-> UndecidedWhy(ev, A)]))
      \* continue from the logged state
-     /\ cur' = LoggedModel(cur, ev.model)
+     /\ cur' = LoggedModel(IF ev.step.op = "addrxn" THEN ApplyEdit(cur, ev.step) ELSE cur, ev.model)
      /\ sols' = IF ev.step.op = "optimize" /\ ev.obs.raises = "none" THEN Append(ev.snaps, ev.obs.sol) ELSE ev.snaps
      /\ last' = CASE ev.step.op = "optimize" ->
                        [valid |-> TRUE, Me |-> [cur EXCEPT !.dir = EffDir(cur, ev.step)],
